@@ -1,5 +1,6 @@
 // vpar implementation. See vpar.hh. Compiled without sanitizers.
 #include "vpar.hh"
+#include <stdint.h>
 
 #include <stdio.h>
 #include <stdlib.h>
@@ -41,6 +42,7 @@ struct Task {
   std::function<void()> fn;
   enum St { RUNNABLE, BLOCKED, SLEEPING, FINISHED } st = RUNNABLE;
   int join_target = -1;
+  const void* wait_addr = nullptr; // wait_on(): woken by wake_all() on the same address (or by its timer)
   uint64_t wake = 0;
   void* tsan_fiber = nullptr;
   int priority = 0;
@@ -367,6 +369,34 @@ void sleep_us(uint64_t us) {
   me->wake = g_clock + us;
   schedule("sleep", us);
   if (me->st == Task::SLEEPING) me->st = Task::RUNNABLE; // resumed by an abort
+}
+
+// A task waits for an event identified by an address (what a condition variable or a contended mutex does),
+// with or without a time limit; wake_all() makes every waiter on that address runnable. A waiter without time
+// limit that nobody wakes is found by the deadlock test like any blocked task.
+void wait_on(const void* addr, uint64_t timeout_us) {
+  vsim::Quiet quiet;
+  Task* me = g_tasks[g_cur];
+  me->wait_addr = addr;
+  if (timeout_us == UINT64_MAX) {
+    me->st = Task::BLOCKED;
+    me->join_target = -1;
+  } else {
+    me->st = Task::SLEEPING;
+    me->wake = g_clock + timeout_us;
+  }
+  schedule("wait", timeout_us == UINT64_MAX ? 0 : timeout_us);
+  me->wait_addr = nullptr;
+  if (me->st == Task::SLEEPING || me->st == Task::BLOCKED) me->st = Task::RUNNABLE; // resumed by an abort
+}
+
+void wake_all(const void* addr) {
+  vsim::Quiet quiet;
+  for (Task* t : g_tasks)
+    if (t->wait_addr == addr && (t->st == Task::BLOCKED || t->st == Task::SLEEPING)) {
+      t->st = Task::RUNNABLE;
+      t->wait_addr = nullptr;
+    }
 }
 
 uint64_t now_us() { return g_clock; }
